@@ -617,13 +617,20 @@ def generic(prog, rep, fam):
                 if nm[0] == "sub" and nm[1] == ("attr", SELF, "_param_names") and val[0] == "sub" and val[2] == nm[2]:
                     unpack_ok = True
                     keep_ok = False     # the returned value is stored whether or not the parameter is fixed
+                val_idx = nm[2] if nm[0] == "sub" else None
+                if nm[0] == "sub" and nm[1] == ("attr", SELF, "_param_names") and val[0] == "sub" and val[2] == nm[2] and val[1][0] == "comp" \
+                        and val[1][4][0] == "call" and val[1][4][1] == G("zip") and val[1][4][2][:1] == (("attr", SELF, "_param_names"),):
+                    # the values were first collected in a list, one per parameter name in order: its element is what is stored
+                    unpack_ok = True
+                    val_idx = ("idx", val[1][3], "zip")
+                    val = val[1][2]
                 if nm[0] == "sub" and nm[1] == ("attr", SELF, "_param_names") and val[0] == "ifexp":
                     # returned value where the parameter is free, its fixed value where it is fixed
                     tst, a_, b_ = val[1], val[2], val[3]
                     if tst[0] == "not":
                         tst, a_, b_ = tst[1], b_, a_
                     fixed_of = lambda x_: any(w_[0] == "fstr" and any(c_ in (("const", "f"), ("const", "f_")) for c_ in w_[1]) for w_ in walk(x_))
-                    if tst[0] == "isnone" and tst[1] == b_ and fixed_of(b_) and a_[0] == "sub" and a_[2] == nm[2]:
+                    if tst[0] == "isnone" and tst[1] == b_ and fixed_of(b_) and a_[0] == "sub" and a_[2] == val_idx:
                         unpack_ok = keep_ok = True
     if not good:
         # the same dictionary built in one expression (a comprehension over the parameter names, possibly through a
